@@ -39,6 +39,15 @@ def single_defs(fn_node):
             for t in n.targets:
                 if isinstance(t, ast.Name):
                     bump(t.id, n.value if len(n.targets) == 1 else None)
+                elif (
+                    isinstance(t, ast.Tuple)
+                    and isinstance(n.value, ast.Tuple)
+                    and len(t.elts) == len(n.value.elts)
+                    and all(isinstance(x, ast.Name) for x in t.elts)
+                    and len(n.targets) == 1
+                ):
+                    for x, v in zip(t.elts, n.value.elts):
+                        bump(x.id, v)
                 else:
                     for x in ast.walk(t):
                         if isinstance(x, ast.Name) and isinstance(x.ctx, ast.Store):
@@ -203,7 +212,7 @@ def _mk_sum(terms):
             const += s * t[1]
         else:
             rest.append((s, t))
-    rest.sort(key=repr)
+    rest.sort(key=lambda st: repr(st[1]))
     if const != 0:
         rest.append((1 if const > 0 else -1, ("c", abs(const))))
     if not rest:
